@@ -129,6 +129,41 @@ func pairObject(codec string, x, y val) (fails []pairFail) {
 	return fails
 }
 
+// argObject: encode(x), then decode the encoded bytes given as a byte_slice, twice; and encode a byte_slice
+// argument. The argument objects must hold the same bytes afterwards and both decodes must give x.
+func argObject(codec string, x val) (fails []pairFail) {
+	name := object.NewString(codec)
+	enc, pan := safeCall(func() object.Object { return builtins.Encode(bg, x.obj(), name) })
+	if pan != "" || isErr(enc) {
+		return nil
+	}
+	raw := append([]byte{}, bytesOf(enc)...)
+	if bytesOf(enc) == nil {
+		return nil
+	}
+	arg := object.NewByteSlice(append([]byte{}, raw...))
+	d1, p1 := safeCall(func() object.Object { return builtins.Decode(bg, arg, name) })
+	if !bytes.Equal(arg.Value(), raw) {
+		fails = append(fails, pairFail{":decode", "decode changed its byte_slice argument", qb(arg.Value()), qb(raw)})
+	}
+	d2, p2 := safeCall(func() object.Object { return builtins.Decode(bg, arg, name) })
+	if p1 != "" || p2 != "" || isErr(d1) != isErr(d2) || (!isErr(d1) && !eitherEqual(d1, d2)) {
+		fails = append(fails, pairFail{":decode-twice", "decoding the same byte_slice twice gives two results", ev.Clip(fmt.Sprint(d2, p2), 80), ev.Clip(fmt.Sprint(d1, p1), 80)})
+	}
+	if !isErr(d1) && p1 == "" && !eitherEqual(d1, x.obj()) && codec != "json" {
+		fails = append(fails, pairFail{":decode-of-byte_slice", "decode(byte_slice(encode(x))) != x", ev.Clip(d1.Inspect(), 80), ev.Clip(x.tok(), 80)})
+	}
+	if xb, ok := x.obj().(*object.ByteSlice); ok {
+		keep := append([]byte{}, xb.Value()...)
+		in := object.NewByteSlice(append([]byte{}, keep...))
+		safeCall(func() object.Object { return builtins.Encode(bg, in, name) })
+		if !bytes.Equal(in.Value(), keep) {
+			fails = append(fails, pairFail{":encode", "encode changed its byte_slice argument", qb(in.Value()), qb(keep)})
+		}
+	}
+	return fails
+}
+
 func qb(b []byte) string { return strconv.QuoteToASCII(ev.Clip(string(b), 80)) }
 
 func pairScriptItem(codec, X, Y string) string {
@@ -184,6 +219,17 @@ func partI(r *ev.Run, table []*fn) {
 				r.Outcome(fmt.Sprintf("I1|%s|%s|%s|%d", codec, class(x), class(y), len(fails)))
 			}
 		}
+		// 1b. the arguments stay what they were: the encoded text handed to decode as a byte_slice (a string
+		//     argument is copied on the way in, a byte_slice is not), decoded twice
+		for _, x := range sub {
+			for _, f := range argObject(codec, x) {
+				col.Lazy("argument-changed:"+codec+f.sig, 0, len(f.text), func() (string, any, string, string) {
+					return fmt.Sprintf("object: codec %s, x = %s: %s", codec, ev.Clip(x.tok(), 80), f.text), icase{Part: "I1b", Route: "object", Codec: codec, X: x.tok()}, f.obs, f.exp
+				})
+			}
+			r.Outcome("I1b|" + codec + "|" + class(x))
+		}
+		r.Eval(len(sub))
 		nPairs += int64(len(sub) * len(sub))
 		r.Eval(len(sub) * len(sub))
 		// 2. the bigger pool, all ordered pairs, in parallel. quick: whole pool for the byte codecs and urlquery,
@@ -505,6 +551,18 @@ func replayIndep(r *ev.Run, table []*fn, path string) {
 		fmt.Printf("r1 := %s = %s\nr2 := %s\nr1 afterwards: %s\n", describe(f, a1), ev.Clip(snap, 200), describe(f, a2), ev.Clip(now, 200))
 		if now != snap {
 			col.Report("result-aliased:"+f.target(), "r1 changed after a later call", c, now, snap)
+		}
+	case "I1b":
+		x, err := parseTok(c.X)
+		if err != nil || codecSpecs[c.Codec] == nil {
+			r.EngineError("replay: bad I1b case")
+			return
+		}
+		fs := argObject(c.Codec, x)
+		fmt.Printf("codec %s, x = %s: %d failures\n", c.Codec, ev.Clip(x.tok(), 200), len(fs))
+		for _, f := range fs {
+			fmt.Printf("  %s: %s (observed %s, expected %s)\n", f.sig, f.text, f.obs, f.exp)
+			col.Report("argument-changed:"+c.Codec+f.sig, f.text, c, f.obs, f.exp)
 		}
 	case "I3":
 		var f *fn
